@@ -47,6 +47,20 @@ def pr(e, mode):
     raise TranslationError("bad tree %r" % (e,))
 
 
+def canonical(names):
+    """positional parameter order of a generated definition: fixed by name, never by order of occurrence
+    (cells read: value before scaling; then calorific values gas1 < gas2 / fluid; efficiency last)"""
+    def key(n):
+        if n.endswith("_scaling"):
+            return (0, n[:-8], 1)
+        if n.endswith("calorific_value"):
+            return (1, n, 0)
+        if n == "efficiency":
+            return (2, n, 0)
+        return (0, n.rsplit("_p_mw", 1)[0].rsplit("_mdot_kg_per_s", 1)[0], 0)
+    return sorted(names, key=key)
+
+
 def free_vars(e, acc):
     if e[0] == "var" and e[1] not in acc:
         acc.append(e[1])
@@ -142,7 +156,7 @@ class Cls:
                 if len(body) != 1 or not isinstance(body[0], ast.Return):
                     raise TranslationError("%s: expected a single return" % name)
                 tree = self.tr(body[0].value, {})
-                self.helpers[name] = (free_vars(tree, []), tree)
+                self.helpers[name] = (canonical(free_vars(tree, [])), tree)
             params = self.helpers[name][0]
             return ("call", name, [("var", p) for p in params])
         raise TranslationError("unsupported expression %s" % ast.unparse(node))
@@ -301,7 +315,7 @@ def generate():
                 for mode, acc in (("R", bodyR), ("Q", bodyQ)):
                     acc.append("Definition %s %s : %s := %s." % (h, " ".join("(%s : %s)" % (p, mode) for p in params),
                                                                  mode, pr(htree, mode)))
-            fv = free_vars(tree, [])
+            fv = canonical(free_vars(tree, []))
             for mode, acc in (("R", bodyR), ("Q", bodyQ)):
                 acc.append("(* %s: value stored into %s.%s[%s, %r] *)" % (nm, cell[0], cell[1], cell[2], cell[3]))
                 acc.append("Definition %s %s : %s := %s." % (nm, " ".join("(%s : %s)" % (p, mode) for p in fv), mode,
